@@ -282,3 +282,102 @@ fn c04_two_adds() {
 pub(crate) fn submissions_in_place(len: u32, kernel_thread: bool, single_issuer: bool) -> Submissions {
     Submissions { shared: k::build_shared_arc(len, kernel_thread, single_issuer) }
 }
+
+// ---------------------------------------------------------------------------
+// C11: the glue around the polling-state handshake in Submissions::wake.
+// ---------------------------------------------------------------------------
+
+static mut WAKE_ENTERS: u32 = 0;
+static mut WAKE_ENTER_TAIL: u32 = 0;
+static mut WAKE_REG_CALLS: u32 = 0;
+static mut WAKE_REG_FD: i32 = 0;
+static mut WAKE_REG_OP: u32 = 0;
+static mut WAKE_REG_SQE: k::Sqe = k::ZERO_SQE;
+
+/// Kani stub for Shared::enter (its own behaviour: C03/C05): records that the
+/// kernel was entered and what had been published by then, consumes everything.
+fn wake_enter_stub(
+    _s: &Shared,
+    _min_complete: libc::c_uint,
+    _flags: libc::c_uint,
+    _timeout: Option<std::time::Duration>,
+) -> std::io::Result<u32> {
+    unsafe {
+        WAKE_ENTERS += 1;
+        WAKE_ENTER_TAIL = k::sq_tail();
+    }
+    k::sq_mem().head.store(k::sq_tail(), std::sync::atomic::Ordering::Relaxed);
+    Ok(0)
+}
+
+unsafe fn wake_register(fd: libc::c_int, op: libc::c_uint, arg: *const libc::c_void, _nr: libc::c_uint) -> libc::c_int {
+    unsafe {
+        WAKE_REG_CALLS += 1;
+        WAKE_REG_FD = fd;
+        WAKE_REG_OP = op;
+        WAKE_REG_SQE = k::sqe_view(&*arg.cast::<libc::io_uring_sqe>());
+    }
+    0
+}
+
+//@ prop: C11
+//@ tier: quick
+//@ what: SubmissionQueue::wake around the handshake: no poll in progress (also after the Ring is gone) -> only the flag is set, no submission, no system call; poll in progress -> exactly one MSG_RING submission addressed to the ring itself carrying the wake user_data, published BEFORE the kernel is entered to submit it (retried while the queue is full); single-issuer ring -> the message is sent synchronously with REGISTER_SEND_MSG_RING on fd -1 and nothing is queued
+//@ bound: ring of 2 with 0..=2 free slots; polling yes/no; single-issuer yes/no
+//@ encodes: io_uring::sq::Submissions::wake; PollingState::wake; io_uring::sq::Submissions::add
+//@ stubs: io_uring::Shared::enter -> model (consumes the queue, records the call); crate::lock -> try_lock model; <core::io::CustomOwner as Drop>::drop -> no-op
+#[kani::proof]
+#[kani::unwind(4)]
+#[kani::stub(crate::io_uring::Shared::enter, wake_enter_stub)]
+#[kani::stub(crate::lock, crate::verif_stubs::lock_model)]
+#[kani::stub(<core::io::CustomOwner as core::ops::Drop>::drop, crate::verif_stubs::custom_owner_drop_noop)]
+fn c11_wake_glue() {
+    let mut t = k::base_table();
+    t.io_uring_register = Some(wake_register);
+    k::install(t);
+    let free: u32 = kani::any();
+    kani::assume(free <= 2);
+    k::sq_set(0, 2 - free);
+    let single: bool = kani::any();
+    let sq = submissions_in_place(2, false, single);
+    let polling: bool = kani::any();
+    if polling {
+        sq.shared().polling.set_polling(true);
+    }
+    unsafe {
+        WAKE_ENTERS = 0;
+        WAKE_REG_CALLS = 0;
+    }
+    let tail0 = k::sq_tail();
+    let r = sq.wake();
+    assert!(r.is_ok());
+    let mut want = k::ZERO_SQE;
+    want.opcode = libc::IORING_OP_MSG_RING as u8;
+    want.fd = k::RING_FD;
+    want.off = 1;
+    want.addr = u64::from(libc::IORING_MSG_DATA);
+    want.user_data = 1;
+    if !polling {
+        assert!(k::sq_tail() == tail0 && unsafe { WAKE_ENTERS } == 0 && unsafe { WAKE_REG_CALLS } == 0, "nobody to wake: nothing submitted, no system call");
+        // the flag is set, so the next poll does not block
+        assert!(sq.shared().polling.set_polling(true), "the next poll sees the wake-up");
+    } else if single {
+        assert!(k::sq_tail() == tail0 && unsafe { WAKE_ENTERS } == 0, "single issuer: nothing queued from this thread");
+        assert!(unsafe { WAKE_REG_CALLS } == 1 && unsafe { WAKE_REG_FD } == -1 && unsafe { WAKE_REG_OP } == libc::IORING_REGISTER_SEND_MSG_RING);
+        assert!(unsafe { WAKE_REG_SQE } == want, "the wake message");
+    } else {
+        assert!(unsafe { WAKE_REG_CALLS } == 0);
+        // full queue: first entry only drains it, second publishes the message
+        let expected_enters = if free == 0 { 2 } else { 1 };
+        assert!(unsafe { WAKE_ENTERS } == expected_enters, "kernel entered so that the message is really submitted");
+        assert!(k::sq_tail() == tail0 + 1, "exactly one wake message");
+        assert!(unsafe { WAKE_ENTER_TAIL } == tail0 + 1, "published before the kernel is entered");
+        let e = k::sqe_view(k::sqe((tail0 & 1) as usize));
+        assert!(e == want, "MSG_RING to the ring itself with the wake user_data");
+    }
+    kani::cover!(polling && !single && free == 0);
+    kani::cover!(polling && single);
+    kani::cover!(!polling);
+    std::mem::forget(r);
+    std::mem::forget(sq);
+}
